@@ -485,11 +485,12 @@ Proof.
   now case Zeq_bool; [|case r as [|rp|rp]; case Z.compare].
 Qed.
 
-Theorem rn_ratio_correct : forall s N D, (0 < N)%Z -> (0 < D)%Z ->
+Theorem rn_ratio_correct_full : forall s N D, (0 < N)%Z -> (0 < D)%Z ->
   let v := IZR N / IZR D in
   valid (rn_ratio s N D) /\
   (Rabs (rnd64 v) < bpow radix2 1024 ->
-   RV (rn_ratio s N D) = cond_Ropp s (rnd64 v) /\ Num.is_finite (rn_ratio s N D) = true).
+   RV (rn_ratio s N D) = cond_Ropp s (rnd64 v) /\ Num.is_finite (rn_ratio s N D) = true /\
+   sign_SF (rn_ratio s N D) = s).
 Proof.
   intros s N D HN HD v. unfold rn_ratio.
   destruct (N =? 0)%Z eqn:E0; [apply Z.eqb_eq in E0; lia|].
@@ -527,7 +528,17 @@ Proof.
   assert (Rx : rnd64 x = cond_Ropp s (rnd64 v)).
   { unfold x. destruct s; cbn [cond_Ropp]; [apply round_NE_opp|reflexivity]. }
   rewrite Rx, Rabs_cond_Ropp in C. rewrite Rlt_bool_true in C by exact Bd.
-  destruct C as (Ev & Fz & _). split; [exact Ev|]. now rewrite <- finite_SF.
+  destruct C as (Ev & Fz & Sz). split; [exact Ev|]. split; [now rewrite <- finite_SF|exact Sz].
+Qed.
+
+Theorem rn_ratio_correct : forall s N D, (0 < N)%Z -> (0 < D)%Z ->
+  let v := IZR N / IZR D in
+  valid (rn_ratio s N D) /\
+  (Rabs (rnd64 v) < bpow radix2 1024 ->
+   RV (rn_ratio s N D) = cond_Ropp s (rnd64 v) /\ Num.is_finite (rn_ratio s N D) = true).
+Proof.
+  intros s N D HN HD v. destruct (rn_ratio_correct_full s N D HN HD) as [V C]. split; [exact V|].
+  intros B. destruct (C B) as (R1 & F1 & _). now split.
 Qed.
 
 (* parse::<f64> of a 15-digit mantissa text is within 2e-15 of it (it is the nearest double) *)
